@@ -38,12 +38,14 @@ Qed.
 
 Lemma ip_can_facts a b : ip_headers_can_coalesce a b = true ->
   if byte_at a 0 / 16 =? 6
-  then byte_at a 0 = byte_at b 0 /\ byte_at a 1 / 16 = byte_at b 1 / 16 /\ byte_at a 7 = byte_at b 7
+  then byte_at a 0 = byte_at b 0 /\ byte_at a 1 = byte_at b 1 /\ byte_at a 2 = byte_at b 2 /\ byte_at a 3 = byte_at b 3 /\ byte_at a 7 = byte_at b 7
   else byte_at a 1 = byte_at b 1 /\ byte_at a 6 / 32 = byte_at b 6 / 32 /\ byte_at a 8 = byte_at b 8.
 Proof.
   unfold ip_headers_can_coalesce. destruct (_ || _); [discriminate|]. destruct (byte_at a 0 / 16 =? 6).
   - destruct (N.eqb_spec (byte_at a 0) (byte_at b 0)); cbn [negb orb]; [|discriminate].
-    destruct (N.eqb_spec (byte_at a 1 / 16) (byte_at b 1 / 16)); cbn [negb]; [|discriminate].
+    destruct (N.eqb_spec (byte_at a 1) (byte_at b 1)); cbn [negb orb]; [|discriminate].
+    destruct (N.eqb_spec (byte_at a 2) (byte_at b 2)); cbn [negb orb]; [|discriminate].
+    destruct (N.eqb_spec (byte_at a 3) (byte_at b 3)); cbn [negb]; [|discriminate].
     destruct (N.eqb_spec (byte_at a 7) (byte_at b 7)); cbn [negb]; [auto|discriminate].
   - destruct (N.eqb_spec (byte_at a 1) (byte_at b 1)); cbn [negb]; [|discriminate].
     destruct (N.eqb_spec (byte_at a 6 / 32) (byte_at b 6 / 32)); cbn [negb]; [|discriminate].
@@ -52,10 +54,9 @@ Qed.
 
 (* ------------------------------------------------ header agreement (UDP) *)
 (* bytes of the IP + UDP header the property compares: everything below the
-   UDP length field except IPv4 total length / ID / checksum, IPv6 flow label /
-   payload length; of IPv6 byte 1 only the traffic-class nibble *)
+   UDP length field except IPv4 total length / ID / checksum and IPv6 payload length *)
 Definition umasked (v6 : bool) (k : N) : bool :=
-  if v6 then (1 <=? k) && (k <? 6) else ((2 <=? k) && (k <? 6)) || ((10 <=? k) && (k <? 12)).
+  if v6 then (4 <=? k) && (k <? 6) else ((2 <=? k) && (k <? 6)) || ((10 <=? k) && (k <? 12)).
 Definition uagree (v6 : bool) (a b : list N) : Prop :=
   (forall k, k < (if v6 then 40 else 20) + 4 -> umasked v6 k = false -> byte_at a k = byte_at b k) /\
   (v6 = true -> byte_at a 1 / 16 = byte_at b 1 / 16).
@@ -78,12 +79,15 @@ Proof.
   pose proof (ip_can_facts a b Hip) as Hf. rewrite A1 in Hf.
   pose proof (udp_key_bytes a b v6 La Lb Hk) as Hkb.
   destruct v6.
-  - cbn [N.eqb Pos.eqb] in Hf. destruct Hf as [E0 [E1 E7]]. split; [|auto].
+  - cbn [N.eqb Pos.eqb] in Hf. destruct Hf as [E0 [E1 [E2 [E3 E7]]]]. split; [|intros _; rewrite E1; reflexivity].
     intros k Hk40 Hm. unfold umasked in Hm.
     destruct (N.eq_dec k 0) as [->|]; [exact E0|].
+    destruct (N.eq_dec k 1) as [->|]; [exact E1|].
+    destruct (N.eq_dec k 2) as [->|]; [exact E2|].
+    destruct (N.eq_dec k 3) as [->|]; [exact E3|].
     destruct (N.eq_dec k 6) as [->|]; [rewrite A3, B3; reflexivity|].
     destruct (N.eq_dec k 7) as [->|]; [exact E7|].
-    apply Hkb; [|lia]. destruct (N.leb_spec 1 k), (N.ltb_spec k 6); cbn [andb] in Hm; try discriminate; lia.
+    apply Hkb; [|lia]. destruct (N.leb_spec 4 k), (N.ltb_spec k 6); cbn [andb] in Hm; try discriminate; lia.
   - cbn [N.eqb Pos.eqb] in Hf. destruct Hf as [E1 [E6 E8]]. split; [|discriminate].
     destruct (A2 eq_refl) as [A5 [A6 A7]]. destruct (B2 eq_refl) as [B5 [B6 B7]].
     intros k Hk20 Hm. unfold umasked in Hm.
@@ -124,7 +128,7 @@ Proof.
 Qed.
 
 Lemma merge_item_ok3 inp off (capsb : Prop) tcp pkt k v6 p it it' bufs bufs' mem :
-  (capsb -> caps_ok off bufs) ->
+  True ->
   merged_ok tcp pkt k off v6 p it it' bufs bufs' ->
   pkt = b_pkt (get_buf inp k) -> b_pkt (get_buf bufs k) = pkt ->
   it_idx it <> k -> (N.to_nat (it_idx it) < length bufs)%nat ->
@@ -161,24 +165,19 @@ Proof.
 Qed.
 
 Lemma loop_inv_u udp off inp k (capsb : Prop) :
-  (capsb -> caps_ok off inp) ->
   (k <= length inp)%nat -> s_err (loop_k udp off inp k) = false ->
-  allQ (item_ok3 inp capsb) (loop_k udp off inp k) /\ (capsb -> caps_ok off (s_bufs (loop_k udp off inp k))).
+  allQ (item_ok3 inp capsb) (loop_k udp off inp k).
 Proof.
-  intros Hcaps. induction k as [|k IH]; intros Hk He.
-  - split; [|exact Hcaps]. intros tcp it H. destruct tcp; destruct H.
+  induction k as [|k IH]; intros Hk He.
+  - intros tcp it H. destruct tcp; destruct H.
   - pose proof (loop_inv_all udp off inp k ltac:(lia)) as Hall.
     unfold loop_k in *. rewrite indices_S, fold_left_app in *. cbn [fold_left] in *. rewrite N.add_0_l in *.
-    pose proof (err_sticky _ _ _ _ He) as He0. destruct (IH ltac:(lia) He0) as [IQ IC]. destruct (Hall He0) as [I [I2 _]].
-    assert (Hs : step_spec off (fold_left (gro_step udp off) (indices k 0) (init inp)) (N.of_nat k)
-                   (gro_step udp off (fold_left (gro_step udp off) (indices k 0) (init inp)) (N.of_nat k))).
-    { apply gro_step_spec; auto; [apply (i_kt _ _ _ I)|apply (i_ku _ _ _ I)]. }
-    split.
-    + eapply (allQ_step inp off (item_ok3 inp capsb) (fun bufs => capsb -> caps_ok off bufs)); eauto.
-      * intros. eapply fresh_item_ok3; eauto.
-      * intros. eapply merge_item_ok3; eauto.
-      * apply (i_nodup _ _ I2).
-    + intros Hc. eapply step_caps; eauto.
+    pose proof (err_sticky _ _ _ _ He) as He0. pose proof (IH ltac:(lia) He0) as IQ. destruct (Hall He0) as [I [I2 _]].
+    destruct (gro_step_spec udp off _ (N.of_nat k) (i_kt _ _ _ I) (i_ku _ _ _ I) He0 (inv_range inp k _ (Nat.lt_le_incl _ _ Hk) I) He) as [bz [Hz [_ Hs]]].
+    eapply (allQ_step inp off (item_ok3 inp capsb) (fun _ => True)); [| | |apply (inv_zero _ _ _ _ I Hz)|apply (i_nodup _ _ I2)|exact Logic.I|apply allQ_zero; [exact IQ|exact Hz]|exact Hs].
+    + intros. eapply fresh_item_ok3; eauto.
+    + intros. eapply merge_item_ok3; eauto.
+    + lia.
 Qed.
 
 (* ------------------------------------- canon of a UDP datagram, bytewise *)
@@ -206,33 +205,27 @@ Proof.
   - destruct (N.ltb_spec k i); [reflexivity|]. destruct (N.ltb_spec k (i + 1)); [lia|reflexivity].
 Qed.
 
-(* the canonical form of an unfragmented UDP datagram (flow label masked) *)
+(* the canonical form of an unfragmented UDP datagram *)
 Definition ucanon_byte (v6 : bool) (p : list N) (k : N) : N :=
   let iph := if v6 then 40 else 20 in
   if (iph + 4 <=? k) && (k <? iph + 8) then 0
-  else if v6 then (if k =? 1 then (byte_at p 1 / 16) * 16 else if (2 <=? k) && (k <? 6) then 0 else byte_at p k)
+  else if v6 then (if (4 <=? k) && (k <? 6) then 0 else byte_at p k)
   else if ((2 <=? k) && (k <? 6)) || ((10 <=? k) && (k <? 12)) then 0 else byte_at p k.
 
 Lemma canon_udp (v6 : bool) tcph p psh :
   hdr_facts false v6 tcph p -> (if v6 then 40 else 20) + 8 <= len p ->
-  len (canon_gen true psh p) = len p /\ forall k, byte_at (canon_gen true psh p) k = ucanon_byte v6 p k.
+  len (canon_gen false psh p) = len p /\ forall k, byte_at (canon_gen false psh p) k = ucanon_byte v6 p k.
 Proof.
   intros Hf Hl. unfold canon_gen. rewrite (l3_parse_of_facts false v6 tcph p Hf) by (destruct v6; lia).
   change (17 =? 6) with false. change (17 =? 17) with true. cbn [andb].
   destruct (N.leb_spec ((if v6 then 40 else 20) + 8) (len p)); [|lia].
   destruct v6; cbn [andb].
   - set (a := zero_at p 4 2). assert (La : len a = len p) by apply len_zero_at.
-    set (b := zero_at a 2 2). assert (Lb : len b = len p) by (unfold b; rewrite len_zero_at; exact La).
-    set (c := put_byte b 1 (byte_at a 1 / 16 * 16)). assert (Lc : len c = len p) by (unfold c; rewrite len_put_byte; lia).
-    split; [rewrite len_zero_at; exact Lc|].
+    split; [rewrite len_zero_at; exact La|].
     intros k. rewrite byte_at_zero_at by lia. unfold ucanon_byte.
     change (40 + 4 + 4) with (40 + 8).
     destruct ((40 + 4 <=? k) && (k <? 40 + 8)) eqn:E1; [reflexivity|].
-    + unfold c. rewrite byte_at_put_byte by lia.
-      destruct (N.eqb_spec k 1) as [->|Hk1].
-      * unfold a. rewrite byte_at_zero_at by lia. reflexivity.
-      * unfold b. rewrite byte_at_zero_at by lia. unfold a. rewrite byte_at_zero_at by lia.
-        destruct (N.leb_spec 2 k), (N.ltb_spec k (2 + 2)), (N.leb_spec 4 k), (N.ltb_spec k (4 + 2)), (N.ltb_spec k 6); cbn [andb]; try reflexivity; lia.
+    unfold a. rewrite byte_at_zero_at by lia. change (4 + 2) with 6. reflexivity.
   - set (a := zero_at p 2 4). assert (La : len a = len p) by apply len_zero_at.
     set (b := zero_at a 10 2). assert (Lb : len b = len p) by (unfold b; rewrite len_zero_at; exact La).
     split; [rewrite len_zero_at; exact Lb|].
@@ -249,18 +242,16 @@ Lemma canon_udp_eq (v6 : bool) tcph a b psh :
   hdr_facts false v6 tcph a -> hdr_facts false v6 tcph b ->
   (if v6 then 40 else 20) + 8 <= len a -> len a = len b -> uagree v6 a b ->
   (forall k, (if v6 then 40 else 20) + 8 <= k -> byte_at a k = byte_at b k) ->
-  canon_gen true psh a = canon_gen true psh b.
+  canon_gen false psh a = canon_gen false psh b.
 Proof.
   intros Ha Hb Hl Hlen [Hu1 Hu2] Hpay.
   destruct (canon_udp v6 tcph a psh Ha Hl) as [La Ba]. destruct (canon_udp v6 tcph b psh Hb ltac:(lia)) as [Lb Bb].
   apply list_ext; [lia|]. intros k _. rewrite Ba, Bb. unfold ucanon_byte.
   destruct ((_ <=? k) && (k <? _)) eqn:E1; [reflexivity|].
   destruct v6.
-  - destruct (N.eqb_spec k 1); [rewrite (Hu2 eq_refl); reflexivity|].
-    destruct ((2 <=? k) && (k <? 6)) eqn:E2; [reflexivity|].
+  - destruct ((4 <=? k) && (k <? 6)) eqn:E2; [reflexivity|].
     destruct (N.lt_ge_cases k (40 + 4)) as [Hlt|Hge].
-    + apply Hu1; [exact Hlt|]. unfold umasked.
-      destruct (N.leb_spec 1 k), (N.ltb_spec k 6), (N.leb_spec 2 k); cbn [andb] in *; try reflexivity; try discriminate; lia.
+    + apply Hu1; [exact Hlt|]. exact E2.
     + apply Hpay. destruct (N.leb_spec (40 + 4) k), (N.ltb_spec k (40 + 8)); cbn [andb] in E1; try discriminate; lia.
   - destruct (((2 <=? k) && (k <? 6)) || ((10 <=? k) && (k <? 12))) eqn:E2; [reflexivity|].
     destruct (N.lt_ge_cases k (20 + 4)) as [Hlt|Hge].
@@ -288,7 +279,7 @@ Proof.
       unfold p1. apply byte_at_put_be16_other; lia. }
     split.
     + intros k Hk Hmk. apply B; [lia|]. unfold umasked in Hmk.
-      destruct (N.leb_spec 1 k), (N.ltb_spec k 6); cbn [andb] in Hmk; try discriminate; lia.
+      destruct (N.leb_spec 4 k), (N.ltb_spec k 6); cbn [andb] in Hmk; try discriminate; lia.
     + intros _. rewrite B by lia. reflexivity.
   - set (p1 := put_bytes P 10 [0; 0]).
     assert (L1 : len p1 = len P) by (apply len_put_bytes; cbn [len length N.of_nat]; lia).
@@ -342,7 +333,7 @@ Proof.
   - rewrite len_app, LHs. reflexivity.
   - intros k Hk. rewrite byte_at_app_r by lia. rewrite LHs. reflexivity.
   - intros k Hk Hmk. apply B; [exact Hk|]. unfold umasked in Hmk. destruct v6.
-    + destruct (N.leb_spec 1 k), (N.ltb_spec k 6); cbn [andb] in Hmk; try discriminate; lia.
+    + destruct (N.leb_spec 4 k), (N.ltb_spec k 6); cbn [andb] in Hmk; try discriminate; lia.
     + destruct (N.leb_spec 2 k), (N.ltb_spec k 6), (N.leb_spec 10 k), (N.ltb_spec k 12); cbn [andb orb] in Hmk; try discriminate; lia.
   - intros ->. rewrite B by (unfold iph; lia). reflexivity.
 Qed.
@@ -367,31 +358,28 @@ Proof.
 Qed.
 
 (* ------------------------ theorem: UDP flows are lossless, header and all *)
-(* Within the capacity bound: the datagrams the kernel makes of a coalesced UDP
-   buffer are, in order, the datagrams merged into it -- equal in every byte the
-   property compares (addresses, ports, payload, IP header fields other than
-   total/payload length, IPv4 ID and checksums; the IPv6 flow label is masked:
-   the model loses it, finding F8). *)
+(* The datagrams the kernel makes of a coalesced UDP buffer are, in order, the
+   datagrams merged into it -- equal in every byte the property compares (canon:
+   addresses, ports, payload, IP header fields incl. the IPv6 flow label, other
+   than total/payload length, IPv4 ID and checksums). *)
 Theorem gro_udp_lossless : forall (canUDP : bool) (offset : N) (bufs : list buf) (j : N),
-  (forall b, In b bufs -> b_cap b <= 65535 + 2 * offset) ->
   let s := handle_gro canUDP offset bufs in
   s_err s = false -> merged_into (s_trace s) j ->
   let b := get_buf (s_bufs s) j in
   v_gso (dec_vhdr (b_hdr b)) = GSO_UDP_L4 ->
-  map (canon_gen true true) (kernel_segment (b_hdr b) (b_pkt b)) =
-  map (fun m => canon_gen true true (b_pkt (get_buf bufs m))) (members (s_trace s) j).
+  map canon (kernel_segment (b_hdr b) (b_pkt b)) =
+  map (fun m => canon (b_pkt (get_buf bufs m))) (members (s_trace s) j).
 Proof.
-  intros udp off inp j Hcaps s He. subst s. unfold handle_gro in *. rewrite gro_loop_is in *.
+  intros udp off inp j s He. subst s. unfold handle_gro in *. rewrite gro_loop_is in *.
   set (s0 := loop_k udp off inp (length inp)) in *.
   assert (He0 : s_err s0 = false) by (destruct (s_err s0) eqn:E; [cbn iota in He; congruence|reflexivity]).
   rewrite He0 in *. cbn [s_trace s_tw s_bufs]. intros Hmj.
   destruct (loop_inv_all udp off inp (length inp) (le_n _) He0) as [I [I2 I3]]. fold s0 in I, I2, I3.
-  destruct (loop_inv_u udp off inp (length inp) True (fun _ => caps_init off inp Hcaps) (le_n _) He0) as [IQ _]. fold s0 in IQ.
+  pose proof (loop_inv_u udp off inp (length inp) True (le_n _) He0) as IQ. fold s0 in IQ.
   destruct (i_cover _ I3 j Hmj) as [tcp [it [Hin Hidx]]].
   pose proof (sel_total_in _ _ _ Hin) as Hint.
   destruct (i_items _ _ _ I it Hint) as [Htw _].
   destruct (IQ tcp it Hin) as [[[Hhl [Hg1 [Hiph [Hhd [Htc [Hmz [Hml Hch]]]]]]] [Hhf Hlen]] Hu].
-  specialize (Hlen Logic.I).
   destruct (i_bounds _ I3 tcp it Hin) as [Bg Bh].
   pose proof (members_length_merged _ _ Hmj) as Hlen2.
   rewrite Hidx in *.
@@ -448,7 +436,7 @@ Proof.
     by (unfold payload_of; apply len_drop).
   assert (Agree : uagree (it_v6 it) sg (b_pkt (get_buf inp m))).
   { eapply uagree_trans; [exact As|]. eapply uagree_trans; [exact HaFP|]. apply uagree_sym. exact Gm. }
-  apply (canon_udp_eq (it_v6 it) (it_tcph it)).
+  unfold canon. apply (canon_udp_eq (it_v6 it) (it_tcph it)).
   - eapply hdr_facts_uagree; [exact As|exact HhF].
   - eapply hdr_facts_uagree; [exact Gm|exact Hhf].
   - rewrite Ls. lia.
